@@ -115,7 +115,7 @@ package parquet
 //@   invariant[C06] fmd.NumRows == rowsSum(HA(m.rowGroups), off(m.rowGroups), rangeindex + 1) && #fmd.RowGroups == groupsKept(HA(m.rowGroups), off(m.rowGroups), rangeindex + 1)
 //@ loop (*Metadata).Footer#2
 //@   invariant wfault == old(wfault) && snkPos == old(snkPos) && freshOrNil(rg.Columns) && freshOrNil(fmd.RowGroups) && fmd != nil && freshsince(fmd)
-//@   invariant[C06] fmd.NumRows == rowsSum(HA(m.rowGroups), off(m.rowGroups), rangeindex + 1) && #fmd.RowGroups == groupsKept(HA(m.rowGroups), off(m.rowGroups), rangeindex + 1) && rg.NumRows == m.rowGroups[rangeindex + 1].rowGroup.NumRows && rg.NumRows != 0 && rangeindex + 1 < #m.rowGroups
+//@   invariant[C06] fmd.NumRows == rowsSum(HA(m.rowGroups), off(m.rowGroups), rangeindex$1 + 1) && #fmd.RowGroups == groupsKept(HA(m.rowGroups), off(m.rowGroups), rangeindex$1 + 1) && rg.NumRows == m.rowGroups[rangeindex$1 + 1].rowGroup.NumRows && rg.NumRows != 0 && 0 <= rangeindex$1 + 1 && rangeindex$1 + 1 < #m.rowGroups
 
 //@ func schemaElements
 //@   modifies nothing
